@@ -59,6 +59,12 @@ class NotApplicable(Exception):
 
 
 def apply(d, m):
+    if 'patch' in m:
+        r = subprocess.run(['patch', '-p1', '-s', '-i', os.path.join(VERIF, m['patch'])], cwd=d,
+                           stdout=subprocess.PIPE, stderr=subprocess.STDOUT, text=True)
+        if r.returncode != 0:
+            raise NotApplicable('patch %s does not apply: %s' % (m['patch'], r.stdout[-300:]))
+        return
     edits = m['edits'] if 'edits' in m else [m]
     for e in edits:
         p = os.path.join(d, e['file'])
